@@ -26,6 +26,7 @@ Fixpoint sty_of (t: ty) : option TyModel.sty :=
   | TList a => option_map TyModel.SList (sty_of a)
   | TSet a => option_map (TyModel.SSet false) (sty_of a)
   | TDict a => option_map (TyModel.SDict TyModel.SStrT) (sty_of a)
+  | TMap k a => match sty_of k, sty_of a with Some sk', Some sa => Some (TyModel.SDict sk' sa) | _, _ => None end
   | TWrap a => sty_of a
   | TTuple ts => option_map TyModel.STupleFix (all_some (map sty_of ts))
   | TUnion [a; TNone] => option_map TyModel.SOpt (sty_of a)
